@@ -392,7 +392,8 @@ Definition var_ok (v : nvar) (x : Q) : bool := negb (off_desired v x).
 Definition seg_written_ok (tol : Q) (s : seg) (x w : Q) : bool :=
   if sfixed s then Qeqb w (spos s)
   else Qeqb w (Qmin' (Qmax' x (smin s)) (smax s)) &&
-       (negb (Qleb (smin s) (smax s)) || (Qleb (smin s) w && Qleb w (smax s))).
+       (negb (Qleb (smin s) (smax s)) || (Qleb (smin s) w && Qleb w (smax s))) &&
+       Qleb (Qabs' (w - x)) (SAT_TOL + tol).   (* the clamp moved it by no more than the channel variables may be off *)
 
 Definition nudge_region_ok (tol : Q) (R : region) (g : gst) (sat : bool) (sep : Q) (cs : list con) (xs : list Q)
            (pos : list Q) : bool :=
